@@ -505,6 +505,9 @@ def run_decode(case):
         classes.append("pointer-followed")
     if len(seeks) >= 2:
         classes.append("pointer-chain")
+    if ref[0] == "ok" and any(buf[t] < 64 and t + 1 + buf[t] > po for po, t in info.pointers):
+        # the label a pointer leads to contains the pointer's own octets (D50)
+        classes.append("ptr-overlap")
     return {"nontrivial": bool(seeks) or (got[0] == "ok" and W.wire_len(got[1]) >= 253), "classes": classes}
 
 
@@ -525,8 +528,21 @@ def decode_cases(draw):
             l = draw(G.label(1, draw(st.sampled_from([3, 8, 63]))))
             out.append(len(l))
             out += l
-        term = draw(st.integers(0, 9))
-        if term <= 3:
+        term = draw(st.integers(0, 10))
+        if term == 10:
+            # a label that contains a pointer back to the label's own length octet: the name
+            # that starts at the pointer reads octets beyond its in-place end
+            s0 = len(out)
+            k = draw(st.integers(0, 3))
+            after = draw(st.integers(0, 3))
+            out.append(k + 2 + after)
+            out += draw(st.binary(min_size=k, max_size=k))
+            starts.append(len(out))
+            out += bytes([0xC0 | ((s0 >> 8) & 0x3F), s0 & 0xFF])
+            out += draw(st.binary(min_size=after, max_size=after))
+            if draw(st.booleans()):
+                out.append(0)
+        elif term <= 3:
             out.append(0)
         elif term <= 7:
             # pointer: backward to a start / into the middle / self / forward
@@ -574,5 +590,5 @@ def parts(tier):
         Part("ops", run_ops, strategy=ops_cases(), n={"quick": 8000, "thorough": 200000},
              require={"near-limit": 100, "invalid-raises": 50, "raised:successor": 1}),
         Part("decode", run_decode, strategy=decode_cases(), n={"quick": 16000, "thorough": 400000}, case_timeout_s=3.0,
-             require={"accepted": 500, "rejected": 500, "pointer-followed": 300, "pointer-chain": 30}),
+             require={"accepted": 500, "rejected": 500, "pointer-followed": 300, "pointer-chain": 30, "ptr-overlap": 20}),
     ]
